@@ -12,7 +12,7 @@ INVS = ['Converged', 'LastGoodInForce', 'HashHonest', 'RemovesExactlyIt', 'Handl
 
 def mc_cfg(cap=False, hil=False, ver=2, regs=2, polls=3, invs=INVS):
     return dict(constants=dict(Workers={'W1', 'W2'}, MaxVersion=ver, MaxRegs=regs, MaxPolls=polls,
-                               Locations={'L1', 'L2'}, CapturedConfig=cap, HandleIsLocation=hil),
+                               Locations={'L1', 'L2', 'M1'}, CapturedConfig=cap, HandleIsLocation=hil),
                 invariants=invs, properties=['NeverOlder', 'NoChangeIsNoop'], deadlock=False)
 
 
